@@ -250,6 +250,10 @@ func runVec(rep *Report, v *Vec, rng *rand.Rand, fresh map[string]bool) {
 	case "data":
 		d := map[string]interface{}{"x": float64(rng.Intn(100)), "s": "d"}
 		payload, wantData = &withData{plain: base, d: d}, d
+		if rng.Intn(3) == 0 {
+			// a payload that publishes nothing for this event: Data() is nil, the document carries no data
+			payload, wantData = &withData{plain: base, d: nil}, nil
+		}
 	case "both":
 		wantID = fmt.Sprintf("id-%d", rng.Int63())
 		d := []interface{}{"a", float64(1)}
@@ -373,7 +377,10 @@ func runVec(rep *Report, v *Vec, rng *rand.Rand, fresh map[string]bool) {
 		// the exact unsigned document: the stored one re-encoded without the two signature members
 		un := ce
 		un.Serialized, un.SerializedHmac = "", ""
-		un.Data = json.RawMessage(generic["data"])
+		un.Data = nil
+		if raw, ok := generic["data"]; ok {
+			un.Data = json.RawMessage(raw)
+		}
 		buf := &bytes.Buffer{}
 		enc := json.NewEncoder(buf)
 		if v.V.Format == "text" {
